@@ -788,9 +788,14 @@ where
         let page_id = pos.entry();
         let slot = pos.slot();
 
+        // The cell being replaced gives its space back, so it counts as room for the new one. (Without it an update
+        // on a well filled page pushed the row into overflow pages although it fitted where the old version was.)
         let max_cell_storage_size = {
             let page = self.get_page_mut(page_id)?;
-            std::cmp::min(page.max_allowed_payload_size(), page.free_space() as u16) as usize
+            std::cmp::min(
+                page.max_allowed_payload_size() as usize,
+                page.free_space() as usize + page.cell(slot).storage_size(),
+            )
         };
 
         let builder = CellBuilder::new(max_cell_storage_size, self.min_keys, self.pager.clone());
